@@ -356,6 +356,11 @@ def _pub_validity(scheme, b):
         if pt == "noncanonical":
             return "open"
         if pt is None:
+            # x = 0 with the sign bit set is a non-canonical encoding of a small-order point (RFC 8032 rejects
+            # it, ed25519-dalek decompresses it): an open region, like the other odd encodings
+            y = int.from_bytes(b, "little") & ((1 << 255) - 1)
+            if (y * y - 1) % _q == 0 and b[31] & 0x80:
+                return "open"
             return "invalid"
         return "open" if ed_small_order(pt) else "valid"
     return "valid" if len(b) == 32 else "invalid"
